@@ -23,7 +23,9 @@ CONSTANTS PairSrc,   \* "all": every (G, M) over Keys; "file": the pairs accepte
           CtxU,      \* name of the universe of contexts
           MaxFlow,   \* flows of 0..MaxFlow values
           KeyU,      \* "six": keys "", a, b, a.b, a.c, a.b.c; "five": without a.c
-          Writ       \* the orders in which a key set is written: "all", or "ends" (shortest first / deepest first)
+          Writ,      \* the orders in which a key set is written: "all", or "ends" (shortest first / deepest first)
+          NObj       \* number of context objects that are shared between values and modified in place by the
+                     \* source between fills (0: every value brings a context object of its own)
 
 Keys == {<<>>, <<"a">>, <<"b">>, <<"a", "b">>, <<"a", "b", "c">>} \cup (IF KeyU = "six" THEN {<<"a", "c">>} ELSE {})
 \* the root (empty) key must be in exactly one of group_by and merge; no key in both
@@ -31,7 +33,13 @@ AllPairs(u) == {gm \in (SUBSET Keys) \X (SUBSET Keys) :
                   gm[1] \cap gm[2] = {} /\ <<>> \in gm[1] \cup gm[2]}
 SetOf(s) == {s[i] : i \in DOMAIN s}
 FilePairs(u) == LET j == JsonDeserialize(IOEnv.GM_FILE) IN {<<SetOf(j[i].G), SetOf(j[i].M)>> : i \in DOMAIN j}
-GMs == IF PairSrc = "all" THEN AllPairs(PairSrc) ELSE FilePairs(PairSrc)
+\* "small" / "filesmall": the (accepted) pairs that list, besides the root, at most one of the keys a, a.b
+\* (the key sets that tell the contexts of the universes "ops3" / "ops4" apart)
+Small(gm) == Cardinality(gm[1] \cup gm[2]) <= 2 /\ gm[1] \cup gm[2] \subseteq {<<>>, <<"a">>, <<"a", "b">>}
+GMs == CASE PairSrc = "all" -> AllPairs(PairSrc)
+         [] PairSrc = "file" -> FilePairs(PairSrc)
+         [] PairSrc = "filesmall" -> {gm \in FilePairs(PairSrc) : Small(gm)}
+         [] PairSrc = "small" -> {gm \in AllPairs(PairSrc) : Small(gm)}
 
 (***************************************************************************)
 (* group_by and merge are *sets* of keys, but the user writes them as      *)
@@ -98,42 +106,61 @@ NC == Len(CtxSeq)
 (***************************************************************************)
 (* The machine: GroupBy(G, M) used as an object with state: fill(value),   *)
 (* compute() (yields the groups as they are, filling goes on afterwards)   *)
-(* and reset() (removes all groups) in any order.  A flow item is the      *)
-(* index of the value's context in CtxSeq, or 0 = compute(), -1 = reset(); *)
-(* values are identified by their position in the flow.  The operations    *)
-(* are part of the flows only in the universes "ops3" / "ops4".            *)
+(* and reset() (removes all groups) in any order.  A flow item is          *)
+(*   [op |-> "fill", o, c]   a value is filled whose context is the object *)
+(*        o and holds CtxSeq[c].  o = 0: a context object of its own, used *)
+(*        for this value only.  o in 1..NObj: an object that the source    *)
+(*        keeps: it was modified in place to hold CtxSeq[c] (if it held    *)
+(*        something else) and is handed on with this value - the earlier   *)
+(*        values filled with o carry the very same, now modified, object;  *)
+(*   [op |-> "compute"], [op |-> "reset"]  (only in the universes "ops3" / *)
+(*        "ops4").                                                         *)
+(* Values are identified by their position in the flow.                    *)
 (***************************************************************************)
 VARIABLES G, M, flow, pos,
           groups,    \* sequence of [key |-> selected sub-context, vals |-> positions], in order of creation
           base,      \* position of the last reset() (0: none)
-          snaps      \* what the compute() calls yielded: [at, base, groups]
-vars == <<G, M, flow, pos, groups, base, snaps>>
+          snaps,     \* what the compute() calls yielded: [at, base, groups, heap]
+          heap       \* what the shared context objects hold now (index into CtxSeq; 0: not used yet)
+vars == <<G, M, flow, pos, groups, base, snaps, heap>>
 
-Items == (1..NC) \cup (IF CtxU \in {"ops3", "ops4"} THEN {0, -1} ELSE {})
+Fill(o, c) == [op |-> "fill", o |-> o, c |-> c]
+ICompute == [op |-> "compute", o |-> 0, c |-> 0]
+IReset == [op |-> "reset", o |-> 0, c |-> 0]
+Items == {Fill(o, c) : o \in 0..NObj, c \in 1..NC} \cup (IF CtxU \in {"ops3", "ops4"} THEN {ICompute, IReset} ELSE {})
+Heap0 == [o \in 1..NObj |-> 0]
 Init == /\ \E gm \in GMs : G = gm[1] /\ M = gm[2]
         /\ flow \in UNION {[1..n -> Items] : n \in 0..MaxFlow}
-        /\ pos = 0 /\ groups = <<>> /\ base = 0 /\ snaps = <<>>
-IsVal(i) == flow[i] > 0
-KeyOf(i) == Proj(CtxSeq[flow[i]], G, M)
+        /\ pos = 0 /\ groups = <<>> /\ base = 0 /\ snaps = <<>> /\ heap = Heap0
+IsVal(i) == flow[i].op = "fill"
+\* the context of value i when it was filled
+FillCtx(i) == CtxSeq[flow[i].c]
+\* the source modifies its context object in place before it hands the next value on
+Store(i) == IF flow[i].o = 0 THEN heap ELSE [heap EXCEPT ![flow[i].o] = flow[i].c]
+\* key = to_string(tree.get(context)): computed from what the context object holds when fill is called
+KeyOf(i) == LET h == Store(i)  cont == IF flow[i].o = 0 THEN flow[i].c ELSE h[flow[i].o] IN Proj(CtxSeq[cont], G, M)
 \* groups[key].append(val)
 FillOld == /\ pos < Len(flow) /\ IsVal(pos + 1)
            /\ \E g \in 1..Len(groups) :
                 /\ groups[g].key = KeyOf(pos + 1)
                 /\ groups' = [groups EXCEPT ![g].vals = Append(@, pos + 1)]
+           /\ heap' = Store(pos + 1)
            /\ pos' = pos + 1 /\ UNCHANGED <<G, M, flow, base, snaps>>
 \* groups[key] = [val]
 FillNew == /\ pos < Len(flow) /\ IsVal(pos + 1)
            /\ \A g \in 1..Len(groups) : groups[g].key # KeyOf(pos + 1)
            /\ groups' = Append(groups, [key |-> KeyOf(pos + 1), vals |-> <<pos + 1>>])
+           /\ heap' = Store(pos + 1)
            /\ pos' = pos + 1 /\ UNCHANGED <<G, M, flow, base, snaps>>
 \* compute(): the groups as they are now; nothing is forgotten
-Compute == /\ pos < Len(flow) /\ flow[pos + 1] = 0
-           /\ snaps' = Append(snaps, [at |-> pos, base |-> base, groups |-> [g \in 1..Len(groups) |-> groups[g].vals]])
-           /\ pos' = pos + 1 /\ UNCHANGED <<G, M, flow, groups, base>>
-\* reset(): all groups are removed
-Reset == /\ pos < Len(flow) /\ flow[pos + 1] = -1
+Compute == /\ pos < Len(flow) /\ flow[pos + 1] = ICompute
+           /\ snaps' = Append(snaps, [at |-> pos, base |-> base, groups |-> [g \in 1..Len(groups) |-> groups[g].vals],
+                                      heap |-> heap])
+           /\ pos' = pos + 1 /\ UNCHANGED <<G, M, flow, groups, base, heap>>
+\* reset(): all groups are removed (the source's objects are what they are)
+Reset == /\ pos < Len(flow) /\ flow[pos + 1] = IReset
          /\ groups' = <<>> /\ base' = pos + 1
-         /\ pos' = pos + 1 /\ UNCHANGED <<G, M, flow, snaps>>
+         /\ pos' = pos + 1 /\ UNCHANGED <<G, M, flow, snaps, heap>>
 Next == FillOld \/ FillNew \/ Compute \/ Reset
 Spec == Init /\ [][Next]_vars
 Done == pos = Len(flow)
@@ -152,7 +179,30 @@ IsPartition == /\ \A i \in Live(base, pos) : Cardinality({g \in 1..Len(groups) :
 \* predecessor states, and the actions never move a value)
 PartitionExact == (pos > 0 /\ IsVal(pos)) =>
                     \A i \in Live(base, pos) :
-                      (GroupOf(i) = GroupOf(pos)) <=> SameGroup(CtxSeq[flow[i]], CtxSeq[flow[pos]], G, M)
+                      (GroupOf(i) = GroupOf(pos)) <=> SameGroup(FillCtx(i), FillCtx(pos), G, M)
+(***************************************************************************)
+(* Shared context objects.  "Their contexts" in the statement can be read  *)
+(* as what a value's context held when the value was filled (FillCtx) or   *)
+(* as what it holds when the groups are looked at (NowCtx); the two differ *)
+(* only for a value whose context object the source modified afterwards.   *)
+(* A pair of values is *settled* when both readings give the same answer;  *)
+(* the machine - which reads a context when fill is called and keeps       *)
+(* nothing about the object - is right on every settled pair under either  *)
+(* reading, whatever objects carried the contexts and whatever was filled  *)
+(* or reset before.  Only settled pairs are compared with an               *)
+(* implementation.                                                         *)
+(***************************************************************************)
+NowCtxIn(h, i) == IF flow[i].o = 0 THEN FillCtx(i) ELSE CtxSeq[h[flow[i].o]]
+SettledIn(h, i, j) == SameGroup(FillCtx(i), FillCtx(j), G, M) <=> SameGroup(NowCtxIn(h, i), NowCtxIn(h, j), G, M)
+Together(i, j) == GroupOf(i) = GroupOf(j)
+AliasingIrrelevant ==
+  \A i, j \in Live(base, pos) :
+     /\ SettledIn(heap, i, j) => (Together(i, j) <=> SameGroup(NowCtxIn(heap, i), NowCtxIn(heap, j), G, M))
+     \* a value whose context object was not touched since is settled with every other such value
+     /\ (NowCtxIn(heap, i) = FillCtx(i) /\ NowCtxIn(heap, j) = FillCtx(j)) => SettledIn(heap, i, j)
+\* the pairs of live values that are not settled at an observation
+OpenIn(h, lo, hi) == {p \in Live(lo, hi) \X Live(lo, hi) : p[1] < p[2] /\ ~SettledIn(h, p[1], p[2])}
+HeapOK == \A o \in 1..NObj : heap[o] \in 0..NC
 \* fill and compute() never move or drop a value; only reset() empties the groups
 Stable == [][(groups' # <<>> \/ groups = <<>>) =>
                \A g \in 1..Len(groups) : /\ groups'[g].key = groups[g].key
@@ -164,8 +214,8 @@ SnapshotsRight == \A k \in 1..Len(snaps) :
   /\ UNION {{sn.groups[g][j] : j \in 1..Len(sn.groups[g])} : g \in 1..Len(sn.groups)} = live
   /\ \A g \in 1..Len(sn.groups) : \A j \in 1..(Len(sn.groups[g]) - 1) : sn.groups[g][j] < sn.groups[g][j + 1]
   /\ \A g, g2 \in 1..Len(sn.groups) : \A x \in 1..Len(sn.groups[g]) : \A y \in 1..Len(sn.groups[g2]) :
-        (g = g2) <=> SameGroup(CtxSeq[flow[sn.groups[g][x]]], CtxSeq[flow[sn.groups[g2][y]]], G, M)
-ResetEmpties == [][(pos < Len(flow) /\ flow[pos + 1] = -1 /\ pos' = pos + 1) => groups' = <<>>]_vars
+        (g = g2) <=> SameGroup(FillCtx(sn.groups[g][x]), FillCtx(sn.groups[g2][y]), G, M)
+ResetEmpties == [][(pos < Len(flow) /\ flow[pos + 1] = IReset /\ pos' = pos + 1) => groups' = <<>>]_vars
 \* arrival order is preserved inside a group (and groups appear in order of their first value)
 OrderPreserved == /\ \A g \in 1..Len(groups) : \A j \in 1..(Len(groups[g].vals) - 1) : groups[g].vals[j] < groups[g].vals[j + 1]
                   /\ \A g \in 1..(Len(groups) - 1) : groups[g].vals[1] < groups[g + 1].vals[1]
@@ -193,7 +243,7 @@ WritingIrrelevant == AtStart => \A w \in Writings(G, M) :
                        /\ \A p \in AllPaths : SelectedW(p, w) <=> Selected(p, G, M)
 \* default arguments: merge takes priority, everything in one group; whole context otherwise
 DefaultsOneGroup == (G = {} /\ M = {<<>>}) => Len(groups) <= 1
-WholeContext == (G = {<<>>} /\ M = {}) => \A i, j \in Live(base, pos) : (GroupOf(i) = GroupOf(j)) <=> flow[i] = flow[j]
+WholeContext == (G = {<<>>} /\ M = {}) => \A i, j \in Live(base, pos) : (GroupOf(i) = GroupOf(j)) <=> flow[i].c = flow[j].c
 \* the selected part is a sub-context: nothing is invented
 ProjPart(i) == \A p \in Paths(Proj(CtxSeq[i], G, M)) : At(Proj(CtxSeq[i], G, M), p) = At(CtxSeq[i], p)
 ProjIsPart == AtStart => \A i \in 1..NC : ProjPart(i)
@@ -201,8 +251,8 @@ ProjIsPart == AtStart => \A i \in 1..NC : ProjPart(i)
 \* The same relation checks over a large universe of contexts, one context per state so that
 \* TLC's workers share them: pos walks through the universe.
 RInit == /\ \E gm \in GMs : G = gm[1] /\ M = gm[2]
-         /\ flow = <<>> /\ pos = 0 /\ groups = <<>> /\ base = 0 /\ snaps = <<>>
-RNext == pos < NC /\ pos' = pos + 1 /\ UNCHANGED <<G, M, flow, groups, base, snaps>>
+         /\ flow = <<>> /\ pos = 0 /\ groups = <<>> /\ base = 0 /\ snaps = <<>> /\ heap = Heap0
+RNext == pos < NC /\ pos' = pos + 1 /\ UNCHANGED <<G, M, flow, groups, base, snaps, heap>>
 RSpec == RInit /\ [][RNext]_vars
 KeyCharStep == pos > 0 => KeyChar(pos)
 ProjPartStep == pos > 0 => ProjPart(pos)
@@ -216,7 +266,7 @@ PathSeq(S) == SetToSeq(S)
 WSeq == SetToSeq(Writings(G, M))
 \* the class of every context of the universe (index of a representative of the class), by Sig
 XInit == /\ \E gm \in GMs : G = gm[1] /\ M = gm[2]
-         /\ flow = <<>> /\ pos = 0 /\ groups = <<>> /\ base = 0 /\ snaps = <<>>
+         /\ flow = <<>> /\ pos = 0 /\ groups = <<>> /\ base = 0 /\ snaps = <<>> /\ heap = Heap0
 XSpec == XInit /\ [][FALSE]_vars
 \* (the universe of contexts itself is attached to the record of one pair)
 FirstGM == CHOOSE gm \in GMs : TRUE
@@ -224,10 +274,13 @@ ClsOf(sg) == [i \in 1..NC |-> CHOOSE j \in 1..NC : sg[j] = sg[i]]     \* one rep
 EmitClasses ==
   PrintT(ToJson([G |-> PathSeq(G), M |-> PathSeq(M), W |-> WSeq, cls |-> ClsOf([i \in 1..NC |-> Sig(CtxSeq[i], G, M)]),
                  ctxs |-> IF <<G, M>> = FirstGM THEN CtxSeq ELSE <<>>]))
-\* behaviours of the machine
+\* behaviours of the machine; with every observation the pairs that are not settled there
+PairSeq(S) == LET q == SetToSeq(S) IN [k \in 1..Len(q) |-> <<q[k][1], q[k][2]>>]
 EmitFlow == Done => PrintT(ToJson([G |-> PathSeq(G), M |-> PathSeq(M), W |-> WSeq,
-                                   flow |-> [i \in 1..Len(flow) |-> IF IsVal(i) THEN [op |-> "fill", c |-> CtxSeq[flow[i]]]
-                                                                     ELSE [op |-> IF flow[i] = 0 THEN "compute" ELSE "reset", c |-> Empty]],
+                                   flow |-> [i \in 1..Len(flow) |-> [op |-> flow[i].op, o |-> flow[i].o,
+                                                                     c |-> IF IsVal(i) THEN FillCtx(i) ELSE Empty]],
                                    snaps |-> [k \in 1..Len(snaps) |-> snaps[k].groups],
-                                   groups |-> [g \in 1..Len(groups) |-> groups[g].vals]]))
+                                   snapopen |-> [k \in 1..Len(snaps) |-> PairSeq(OpenIn(snaps[k].heap, snaps[k].base, snaps[k].at))],
+                                   groups |-> [g \in 1..Len(groups) |-> groups[g].vals],
+                                   open |-> PairSeq(OpenIn(heap, base, pos))]))
 =============================================================================
